@@ -201,6 +201,10 @@ ApplyVar(a, v) ==
      \* from masked inputs are not constrained by the property
      ELSE IF anyCallable /\ (\E k \in 1..Len(v.mask) : v.mask[k])
      THEN [v EXCEPT !.shape = nshape] @@ [free |-> TRUE]
+     \* a single-precision variance (standard deviation) is not exact enough to
+     \* identify its rational value: that variable is left open, the others are decided
+     ELSE IF v.dt = "f" /\ (\E ax \in axes : FuncOf(a, v.dims[ax]).f = "var")
+     THEN [v EXCEPT !.shape = nshape] @@ [free |-> TRUE]
      ELSE [v EXCEPT !.shape = nshape] @@
           [alts |-> {ApplyOrder(ArrOf(v), v, a, p) : p \in Perms(axes)}]
 
@@ -539,7 +543,7 @@ Dec_apply(f, a) ==
     IN axes # {} =>
          /\ MaxDen(v) = 1 /\ Cardinality(axes) <= 2 /\ ~HasNonFin(v)
          \* float32 variance is not exact enough to identify the rational value
-         /\ ("var" \in fns => Cardinality(axes) = 1 /\ MaxAbs(v) <= 2000 /\ v.dt # "f")
+         /\ ("var" \in fns => Cardinality(axes) = 1 /\ (MaxAbs(v) <= 2000 \/ v.dt = "f"))
          /\ ("prod" \in fns => Cardinality(axes) = 1 /\ MaxAbs(v) <= 30)
          /\ MaxAbs(v) <= 20000
 \* comparisons with non-finite cells are not modelled
